@@ -267,6 +267,8 @@ func R11(p *core.Prog) *core.Result {
 					r.Fail(".SLOT", key, pos, fmt.Sprintf("gotype.%s / %s: no scratch-slot cast found for %s on one side", pr[0], pr[1], n), "")
 				case !types.Identical(a, b):
 					r.Fail(".SLOT", key, pos, fmt.Sprintf("gotype.%s casts the scratch slot for %s to %s but %s reads it back as %s: the bytes of one slice/map header are reinterpreted as another type", pr[0], n, a, pr[1], b), "")
+				case slotElemMismatch(n, a) != "":
+					r.Fail(".SLOT", key+"|announced", pos, fmt.Sprintf("gotype.%s for %s: %s: a stream that announces this element type is built into a container of another Go type (only a type-exact comparison or a type assertion notices)", pr[0], n, slotElemMismatch(n, a)), "")
 				default:
 					// the unfolder chosen in the creation clause must store through the same type
 					if why := unfolderTargetMismatch(p, gp, mclause[n], a); why != "" {
@@ -452,4 +454,43 @@ func ubjsonMarkerEvents(p *core.Prog, r *core.Result) {
 	r.Floor("ubjson_marker_rows", n, 10)
 	_ = token.NoPos
 	_ = ssa.Value(nil)
+}
+
+
+// slotElemMismatch: the scratch slot created for an announced BaseType holds
+// elements of the Go type that BaseType names (UintType -> uint, ...).
+func slotElemMismatch(caseName string, slot types.Type) string {
+	name := caseName
+	if i := strings.LastIndex(name, "."); i >= 0 {
+		name = name[i+1:]
+	}
+	var want types.BasicKind = types.Invalid
+	for k, v := range kindToBase {
+		if v[0] == name {
+			want = k
+		}
+	}
+	if name == "ByteType" {
+		want = types.Uint8
+	}
+	if want == types.Invalid {
+		return ""
+	}
+	pt, ok := slot.Underlying().(*types.Pointer)
+	if !ok {
+		return ""
+	}
+	var elem types.Type
+	switch t := pt.Elem().Underlying().(type) {
+	case *types.Slice:
+		elem = t.Elem()
+	case *types.Map:
+		elem = t.Elem()
+	default:
+		return ""
+	}
+	if b, ok := elem.Underlying().(*types.Basic); ok && b.Kind() == want {
+		return ""
+	}
+	return fmt.Sprintf("the slot holds elements of type %s, but %s announces %s", elem, name, types.Typ[want])
 }
